@@ -1,6 +1,6 @@
 (* C08 — Meek rule closure is sound and complete on patterns.  Statements: C08/Spec.v; model: C08/Model.v. *)
 From Coq Require Import List Arith Bool.
-From PG Require Import Base.ListSet Graph.MGraph C08.Model C08.Spec C08.Proofs C08.Bounded_n4 C08.Refuted C08.Acyclic.
+From PG Require Import Base.ListSet Graph.MGraph C08.Model C08.Spec C08.Proofs C08.Bounded_n4 C08.Refuted C08.Acyclic C08.Cover.
 Import ListNotations.
 
 (* unbounded: the closure only turns undirected edges into directed ones (nodes, skeleton, directed edges kept) *)
@@ -44,3 +44,20 @@ Theorem meek_sound_code_refuted_spec :
   exists p d i j, simple_pdag p /\ consistent_ext p d /\ has_u p i j = true /\ r1_code p i j = true /\ ~ In (i, j) (D d).
 Proof. exact meek_sound_code_refuted_spec_proof. Qed.
 Print Assumptions meek_sound_code_refuted_spec.
+
+(* coverage of the enumeration: EVERY well-formed DAG on the nodes 0..n-1 has its canonical listing (same nodes, the same
+   directed edges as a set) in all_dags n *)
+Theorem all_dags_covers_every_dag : forall n d,
+  V d = nodes n -> wfb d = true -> acyclicb d = true ->
+  let c := canon_dag n (D d) in V c = V d /\ set_eq (D d) (D c) /\ In c (all_dags n).
+Proof. exact all_dags_cover. Qed.
+Print Assumptions all_dags_covers_every_dag.
+
+(* the bounded completeness theorem over EVERY well-formed DAG on 0..n-1, n <= 4, through its canonical listing
+   (not proved: that pattern_of / meek_model / essential_graph give set-equal results on set-equal edge lists) *)
+Theorem meek_complete_on_patterns_bounded_4_all : forall n d,
+  n <= 4 -> V d = nodes n -> wfb d = true -> acyclicb d = true ->
+  let c := canon_dag n (D d) in
+  V c = V d /\ set_eq (D d) (D c) /\ pdag_eqb (meek_model (pattern_of c)) (essential_graph c) = true.
+Proof. exact meek_complete_all_dags_4. Qed.
+Print Assumptions meek_complete_on_patterns_bounded_4_all.
